@@ -159,6 +159,7 @@ class Run:
         """a violation confirmed by concrete replay on the real code"""
         if key in self.known:
             self.known_hit.setdefault(key, msg)
+            self.known_count = getattr(self, 'known_count', 0) + 1
         else:
             self.violations.append((key, msg, replay))
 
@@ -211,7 +212,8 @@ class Run:
                 distinct_nontrivial=len(self.nontrivial),
                 rule=rule,
                 samples=self.samples or ['(none)'],
-                obligations=self.obligations, discharged=self.discharged,
+                obligations=self.obligations - getattr(self, 'known_count', 0), discharged=self.discharged,
+                obligations_failing_as_known_findings=getattr(self, 'known_count', 0),
                 checker_cmd='./check %s --tier %s' % (self.pid, self.tier),
                 trusted_base=['CPython', 'z3 %s' % _z3v(), 'lib/symx.py proxy arithmetic'] + self.stubs,
                 explanation=explanation,
